@@ -20,7 +20,7 @@ RULE = (
     "requested / as the source's); a rejected attempt leaves the source's deep snapshot unchanged; ChangingIndex: "
     "elements j!=i keep their physical amount, element i equals the supplied amount (db float conversion, 1e-12*S), "
     "source unchanged; IndexAsScalar(i, q) equals Convert of element i. Curve part: Curve(image, domain), SetImage, "
-    "SetDomain and the property setters with Arrays of arbitrary lengths: after every call len(image)==len(domain), "
+    "SetDomain and the property setters with Arrays of arbitrary lengths (flat list/tuple/ndarray, FixedArray, and Arrays of pairs): after every call len(image)==len(domain), "
     "equal lengths are accepted, different lengths raise ValueError and leave both attributes identical. "
     "Non-trivial = a sequence of >= 3 steps containing a rejected attempt followed by another step; key = the sequence."
 )
@@ -380,8 +380,15 @@ class CurveMachine:
     def arr(self, spec):
         from barril.units import Array, FixedArray
 
-        kind, vals, ui, fixed = spec
+        kind, vals, ui, fixed = spec[:4]
         u, c = UNITS[ui % len(UNITS)]
+        if len(spec) > 4 and spec[4] and vals:
+            # an Array whose values are pairs (list or tuple of tuples / 2-d ndarray): its length is the number of pairs
+            import numpy
+
+            pairs = [(x, x + 1.0) for x in vals]
+            cont = {"list": list(pairs), "tuple": tuple(pairs), "ndarray": numpy.array(pairs)}[kind]
+            return Array(cont, u, c)
         if fixed and len(vals) >= 2:
             return FixedArray(len(vals), gen.as_container(kind, vals), u, c)
         return Array(gen.as_container(kind, vals), u, c)
@@ -399,8 +406,8 @@ class CurveMachine:
                 self.fail("curve_ctor_rejects_equal_lengths", "Curve(%r, %r) raised ValueError" % (img, dom))
             ctx.cls("curve_ctor_rejected")
             self.flags.add("rejected")
-            a = self.arr(("list", [1.0, 2.0], 0, False))
-            cv = Curve(a, self.arr(("tuple", [0.0, 1.0], 4, False)))
+            a = self.arr(("list", [1.0, 2.0], 0, False, False))
+            cv = Curve(a, self.arr(("tuple", [0.0, 1.0], 4, False, False)))
         else:
             if len(img) != len(dom):
                 self.fail("curve_ctor_accepts_different_lengths", "Curve(%r, %r) was accepted" % (img, dom))
@@ -476,7 +483,7 @@ def fa_ops():
 
 def curve_case():
     vals = st.lists(st.sampled_from([1.0, 2.0, 0.5, -3.0, 10.0]), min_size=0, max_size=5)
-    arr = st.tuples(st.sampled_from(KINDS), vals, st.integers(0, 10), st.booleans())
+    arr = st.tuples(st.sampled_from(KINDS), vals, st.integers(0, 10), st.booleans(), st.sampled_from([False, False, False, True]))
     op = st.tuples(st.sampled_from(["set_image", "set_domain", "prop_image", "prop_domain"]), arr)
     return st.tuples(st.tuples(arr, arr), st.lists(op, min_size=1, max_size=10))
 
